@@ -103,6 +103,9 @@ ANTICIPATED = [
     ('[[1e200,0],[0,1e200]]^2', 'CalcOverflowError'), ('arctan2(0,0)', 'FunctionEvalError'),
     ('(x', 'UnbalancedBrackets'), ('1+', 'UnableToParse'), ('zz+1', 'UndefinedVariable'), ('zz(1)', 'UndefinedFunction'),
     ('sin(1,2)', 'ArgumentError'),
+    ('[[1,2],[3,4]]^0.5', 'MathArrayError'), ('[[1,2],[3,4]]^i', 'MathArrayError'),
+    ('[[1,2],[3,4]]^(1+2*i)', 'MathArrayError'), ('[[1,1],[1,1]]^-1', 'MathArrayError'),
+    ('[[1,2],[3,4]]^sqrt(-4)', 'MathArrayError'),
     # (shape errors are not listed: whether they are raised or graded depends on options that
     # an author may have registered class-wide)
 ]
@@ -220,6 +223,15 @@ class TenantWorld(object):
                 tp['bp']['style'] = 'dict'
             tenants[gid] = tp
             order.append(gid)
+        for sid, sh in shared.items():
+            if rng.random() < 0.5:
+                # the author also uses the shared subgrader on its own (one object, two roles)
+                tenants[sid] = {'bp': sh['bp'], 'configured': False, 'kind': 'text', 'kindname': 'shared',
+                                'pal': {'right': list(sh['items']['right']), 'wrong': list(sh['items']['wrong']),
+                                        'malformed': list(sh['items']['bad'])},
+                                'expects': {'valid': list(sh['items']['right'][:3]), 'invalid': []},
+                                'targets': sh['targets'], 'depth': 0, 'debug': False}
+                order.append(sid)
         n_ev = rng.randint(*prof['len'][tier])
         events = []
         upfront = [g for g in order if rng.random() < 0.7]
@@ -513,6 +525,7 @@ class Run(object):
         self.dgn = {}
         self.last_call = {}
         self.dict_reg = {}
+        self.dg2 = {}
         self.r3_jobs = []
 
     def bump(self, d, key, n=1):
@@ -534,7 +547,7 @@ class Run(object):
     # -- building ----------------------------------------------------------------------
     def resolve_ref(self, sid, builder):
         """Shared subgrader referenced by a tenant of the original world."""
-        if sid in self.graders:
+        if sid in self.graders and self.graders[sid] is not None:
             return self.graders[sid]
         obj = builder.build(self.shared[sid]['bp'])
         self.graders[sid] = obj
@@ -544,6 +557,8 @@ class Run(object):
 
     def build(self, gid):
         tp = self.tenants[gid]
+        if gid in self.shared and gid in self.graders:
+            return {'k': 'ret', 'v': None}
         did = tp['bp'].get('dict_id')
         if did is not None and did not in self.dict_reg:
             # the shared dictionary (and the objects nested in it) is written now
@@ -849,20 +864,30 @@ class Run(object):
                 for ent in self.builder.author:
                     ent[2] = digest(ent[1], True)
         if 'I-others' in self.judges:
-            for hid, h in self.graders.items():
-                if h is None:
+            # every grader object of the world (top-level, nested, shared), each digested on its
+            # own (nested graders by label): only the grader that was called may change, and only
+            # by its own legitimately inferred answers
+            called = self.graders.get(gid) if gid is not None else None
+            for h in self.builder.all_graders:
+                key = id(h)
+                now = digest(h.config, True)
+                old = self.dg2.get(key)
+                if old is None:
+                    self.dg2[key] = (now, self.noans2(h))
                     continue
-                now = digest(h.config)
-                if now == self.dg.get(hid):
+                if now == old[0]:
                     continue
-                if hid == gid and (not tp['configured'] or tp.get('infers')) \
-                        and self.noans(h) == self.dgn.get(hid):
-                    # legitimately inferred answers: everything but 'answers' is unchanged
-                    self.dg[hid] = now
+                if h is called and (not tp['configured'] or tp.get('infers')) and self.noans2(h) == old[1]:
+                    self.dg2[key] = (now, old[1])
                     continue
                 self.violate('I-others', i, type(h).__name__,
-                             'config of %s changed by event %d on %s' % (hid, i, gid))
-                self.dg[hid] = now
+                             'config of %s (%s) changed by event %d on %s'
+                             % (getattr(h, 'sim_label', '?'), type(h).__name__, i, gid))
+                self.dg2[key] = (now, self.noans2(h))
+
+    @staticmethod
+    def noans2(g):
+        return digest({k: v for k, v in g.config.items() if k != 'answers'}, True)
 
     # -- other events ------------------------------------------------------------------
     def do_event(self, i, ev):
@@ -917,7 +942,12 @@ class Run(object):
         """An anticipated problem keeps its specific error class (debug off), whatever ran before."""
         m = self.lib.mitx
         text, want = ANTICIPATED[ev['case']]
-        if ev['via'] == 'matrix':
+        if want == 'MathArrayError':
+            # a plain FormulaGrader: MatrixGrader options that an author may have registered
+            # class-wide (suppress_matrix_messages) legitimately turn these into graded results
+            g = m.FormulaGrader(answers='1', max_array_dim=2)
+            inp = text
+        elif ev['via'] == 'matrix':
             g = m.MatrixGrader(answers='[1,2]', max_array_dim=2)
             inp = text
         elif ev['via'] == 'numerical':
